@@ -90,8 +90,8 @@ func scenDET(s *sched.Sim, cfg Config, res *Result) {
 	var reps []rep
 	var together []rep // answers to the operation sent several times at once
 	atOnceFirst := s.T.Bool(1, 2)
-	var done bool
-	idx := 0
+	var done atomic.Bool
+	var idx atomic.Int32
 	s.Go("client", func() {
 		// (on a cold plan cache when it comes first)
 		atOnce := func() {
@@ -140,7 +140,7 @@ func scenDET(s *sched.Sim, cfg Config, res *Result) {
 			atOnce()
 		}
 		for i := 0; i < k; i++ {
-			idx = i
+			idx.Store(int32(i))
 			wireFrom := len(env.wire)
 			cr := env.post(fmt.Sprintf("r%d", i), []clientReq{{Query: op.Text, Variables: op.Vars, OperationName: op.OpName}}, false)
 			r := rep{status: cr.Status, wire: map[int][]string{}}
@@ -163,17 +163,17 @@ func scenDET(s *sched.Sim, cfg Config, res *Result) {
 			}
 			reps = append(reps, r)
 			// a different schedule for the next repetition
-			s.Policy = drawPolicy(s)
+			s.SetPolicy(drawPolicyOn(s))
 		}
 		if !atOnceFirst {
 			atOnce()
 		}
-		done = true
+		done.Store(true)
 	})
 	s.Policy = drawPolicy(s)
-	end := s.Run(func() bool { return done && len(s.Alive()) == 0 }, 400000, 10*time.Second)
+	end := s.Run(func() bool { return done.Load() && len(s.Alive()) == 0 }, 400000, 10*time.Second)
 	if end == sched.Hang {
-		res.Violate(prop+"/hang", "repetition %d did not finish: parked=%v", idx, s.ParkedLabels())
+		res.Violate(prop+"/hang", "repetition %d did not finish: parked=%v", idx.Load(), s.ParkedLabels())
 	} else if end == sched.StepBudget {
 		res.Verdict, res.Anomaly = "anomaly", "step budget exhausted in DET"
 		return
